@@ -393,6 +393,29 @@ def merge_key_rule(R, oid):
     fn = cx.f.node
     rets = [r for r in ast.walk(fn) if isinstance(r, ast.Return) and isinstance(r.value, ast.Tuple) and len(r.value.elts) == 3]
     keys = {r.value.elts[2].id for r in rets if isinstance(r.value.elts[2], ast.Name)}
+    # a key assembled with str.join at two nesting levels: the inner groups must be told apart in the outer text - joined with another separator
+    # or enclosed in delimiters. `','.join(groups)` over groups that are themselves `','.join(items)` reads the same for {a|b} and {a},{b}.
+    def _join_of(e):
+        """(separator, list name) when e is SEP.join(L) / SEP.join(sorted(L))"""
+        if isinstance(e, ast.Call) and isinstance(e.func, ast.Attribute) and e.func.attr == 'join' and isinstance(e.func.value, ast.Constant) \
+                and isinstance(e.func.value.value, str) and len(e.args) == 1:
+            a_ = e.args[0]
+            if isinstance(a_, ast.Call) and isinstance(a_.func, ast.Name) and a_.func.id == 'sorted' and a_.args:
+                a_ = a_.args[0]
+            if isinstance(a_, ast.Name):
+                return e.func.value.value, a_.id
+        return None
+    outer = [(j, x) for x in ast.walk(fn) for j in [_join_of(x)] if j]
+    for (sep, lst), call in outer:
+        for ap in ast.walk(fn):
+            if isinstance(ap, ast.Call) and isinstance(ap.func, ast.Attribute) and ap.func.attr == 'append' and isinstance(ap.func.value, ast.Name) \
+                    and ap.func.value.id == lst and ap.args:
+                inner = _join_of(ap.args[0])
+                if inner and inner[0] == sep:
+                    R.fail(oid, f'{cx.qual} :: groups of `{inner[1]}` are delimited in the key', cx.qual, ap,
+                           f'the items of `{inner[1]}` are joined with {sep!r} and the groups are joined with {sep!r} again, without delimiters around a group: different '
+                           'groupings of the same items (one constraint with two options / two constraints with one option each) give the same key, the chains '
+                           'are merged into one edge and only the first chain\'s constraints are kept', site(cx, ap))
     if len(keys) != 1:
         raise AnalysisError('pattern_movement: the merge key is not one local returned as third element')
     key = keys.pop()
